@@ -106,11 +106,16 @@ Definition min_optz (a b : option Z) : option Z :=
   | None, y => y
   end.
 
+(* inflight.go heldExpiry: a message held back by flow control carries its expiry time as
+   -1 - expiry (so -1 when it has none); held or not, the expiry time is the same *)
+Definition unhold (e : Z) : Z := if (e <? 0)%Z then (-1 - e)%Z else e.
+
 Definition deadline (maxcap : N) (p : pkt) : option Z :=
-  min_optz (if (p_ver p =? 5) && (0 <? p_expiry p)%Z then Some (p_expiry p) else None)
+  let e := unhold (p_expiry p) in
+  min_optz (if (p_ver p =? 5) && (0 <? e)%Z then Some e else None)
            (if 0 <? maxcap then Some (Z.of_N (p_created p + maxcap)) else None).
 
-Definition wire_expiry (p : pkt) : Z := if (0 <? p_expiry p)%Z then p_expiry p else 0%Z.
+Definition wire_expiry (p : pkt) : Z := let e := unhold (p_expiry p) in if (0 <? e)%Z then e else 0%Z.
 
 (* the fixed header (type qos dup retain remaining) without the DUP flag: the flag of a stored
    record is never sent as it is (every delivery from the in-flight store sets it, every delivery of
@@ -245,7 +250,7 @@ Definition KF_C20_sub_key_collision (aws : list awr) : bool :=
    message expiry interval (set to -1 by the deferral path C25-1, to the due time of a delayed will
    C16-3): it cannot be recomputed after a restart *)
 Definition irregular (maxcap : N) (p : pkt) : bool :=
-  negb (p_expiry p =? regular_expiry maxcap (p_created p) (eff_mei (p_fh p) (p_mei p)))%Z
+  negb (unhold (p_expiry p) =? regular_expiry maxcap (p_created p) (eff_mei (p_fh p) (p_mei p)))%Z
   || ((0 <? eff_mei (p_fh p) (p_mei p)) && negb (p_ver p =? 5)).   (* an expiry interval on a packet not marked MQTT 5 *)
 Definition KF_C20_irregular_expiry (maxcap : N) (aws : list awr) : bool :=
   existsb (fun a => match a with
